@@ -226,6 +226,14 @@ class FunctionAnalysis:
         if op in ("and", "or", "xor", "urem", "srem", "udiv", "sdiv", "lshr", "ashr", "phi", "select", "icmp"):
             r = self.iv(o, st, allow_lf=False)
             return LF(0, {self._atom(o, op, r[0], r[1]): 1})
+        if op == "call" and i.callee in ("abs", "labs", "llvm.abs.i32") and i.args:
+            a = self.lf(i.args[0], st, depth + 1)
+            if a is not None:
+                iv = self.iv_lf(a, st, None)
+                bits = tybits(i["ty"])
+                if iv[0] > -(1 << (bits - 1)) and iv[1] < (1 << (bits - 1)):
+                    lo = 0 if iv[0] <= 0 <= iv[1] else min(abs(iv[0]), abs(iv[1]))
+                    return LF(0, {self._atom(o, "abs", lo, max(abs(iv[0]), abs(iv[1]))): 1})
         return LF(0, {self._atom(o, "val", *self._tyrange(i["ty"])): 1})
 
     def _fit(self, inst, r, st):
